@@ -22,7 +22,13 @@ KINDS = {
     'graphics': 'application/vnd.oasis.opendocument.graphics',
     'chart': 'application/vnd.oasis.opendocument.chart',
     'presentation': 'application/vnd.oasis.opendocument.presentation',
+    'image': 'application/vnd.oasis.opendocument.image',
+    'text-master': 'application/vnd.oasis.opendocument.text-master',
 }
+# media types without a factory function (templates ...): documents made with OpenDocument(mimetype, add_generator=False)
+BARE_MTS = [u'application/vnd.oasis.opendocument.' + x for x in (
+    'text-template', 'spreadsheet-template', 'graphics-template', 'presentation-template', 'chart-template', 'image-template',
+    'formula', 'formula-template', 'text-web', 'text', 'chart')]
 MARK = re.compile(br'OBJMARK(\d+)K')
 
 
@@ -133,7 +139,8 @@ def new_real(kind, marker, settings, load_mode=False):
     from odf import opendocument, style, text, table, config
     ctor = {'text': opendocument.OpenDocumentText, 'spreadsheet': opendocument.OpenDocumentSpreadsheet,
             'graphics': opendocument.OpenDocumentDrawing, 'chart': opendocument.OpenDocumentChart,
-            'presentation': opendocument.OpenDocumentPresentation}[kind]
+            'presentation': opendocument.OpenDocumentPresentation, 'image': opendocument.OpenDocumentImage,
+            'text-master': opendocument.OpenDocumentTextMaster}[kind]
     d = ctor()
     name = u'OBJMARK%dK' % marker
     d.fontfacedecls.addElement(style.FontFace(name=name, fontfamily=u'Mark'))
@@ -175,12 +182,32 @@ def dump_real(doc, keys, id=0):
     return m
 
 
-def save_real(doc):
-    buf = io.BytesIO()
+def save_real(doc, via='fileobj', tmpdir=None):
+    """save through one of the entry points: save(file object) / save(file name) / save(file name, addsuffix=True) / write(file object)"""
     with warnings.catch_warnings(record=True) as w:
         warnings.simplefilter('always')
-        doc.save(buf)
-    return buf.getvalue(), [str(x.message) for x in w]
+        if via in ('name', 'name+suffix') and tmpdir is not None:
+            import os, glob
+            base = os.path.join(tmpdir, u'saved-%d' % len(os.listdir(tmpdir)))
+            if via == 'name':
+                doc.save(base + u'.zip'); path = base + u'.zip'
+            else:
+                doc.save(base, True)
+                hits = glob.glob(base + u'.*')
+                path = hits[0] if len(hits) == 1 else base
+            with open(path, 'rb') as f:
+                raw = f.read()
+            os.unlink(path)
+        elif via == 'write':
+            buf = io.BytesIO()
+            doc.write(buf)          # the ZipFile is closed when write() drops it
+            import gc; gc.collect()
+            raw = buf.getvalue()
+        else:
+            buf = io.BytesIO()
+            doc.save(buf)
+            raw = buf.getvalue()
+    return raw, [str(x.message) for x in w]
 
 
 # --------------------------------------------------------------------------- observation of an archive
@@ -401,12 +428,12 @@ def oracle_c03(arch, top, loaded=False):
     for n, _, _, data in arch.members:
         bytes_at.setdefault(n, data)
     for o in top.walk():
-        fs = where.get(o.marker, [])
+        fs = [''] if (o is top and o.marker is None) else where.get(o.marker, [])
         if len(fs) != 1:
             bad.append(('object-not-stored-once' + sfx, 'object %d (marker %d) has content.xml at %r' % (o.id, o.marker, fs)))
             continue
         F = fs[0]
-        if (F + 'styles.xml') not in bytes_at or o.marker not in markers_in(bytes_at[F + 'styles.xml']):
+        if (F + 'styles.xml') not in bytes_at or (o.marker is not None and o.marker not in markers_in(bytes_at[F + 'styles.xml'])):
             bad.append(('object-styles-missing' + sfx, 'object %d: no styles.xml of its own in %r' % (o.id, F)))
         if o is not top and mdict.get(F) != [o.mimetype]:
             bad.append(('object-mediatype' + sfx, 'folder %r declared %r, object is %r' % (F, mdict.get(F), o.mimetype)))
